@@ -462,11 +462,134 @@ impl TypedScenario for C10Handshake {
     }
 }
 
+// ---- (c) the default trust policy does not take its roots from the caller's environment ---------
+
+#[derive(Serialize, Deserialize, Clone, Debug)]
+pub struct EnvPlan {
+    pub seed: u64,
+    pub rt: RtKnobs,
+    /// 0: SSL_CERT_FILE names the server's certificate; 1: SSL_CERT_DIR names a directory holding it
+    pub var: u8,
+}
+
+pub fn exec_env(p: &EnvPlan, trace: bool) -> Exec {
+    let mut ex = Exec::new();
+    let p = Arc::new(p.clone());
+    let p2 = p.clone();
+    let netslot: Arc<Mutex<Option<SimNet>>> = Arc::new(Mutex::new(None));
+    let ns2 = netslot.clone();
+    let real_now = std::time::SystemTime::now().duration_since(std::time::UNIX_EPOCH).unwrap().as_secs() as i64;
+    let out = simrt::run(&p.rt, p.seed, Duration::from_secs(120), move || async move {
+        let p = p2;
+        let net = SimNet::new(NetCfg::clean(p.seed), trace);
+        *ns2.lock().unwrap() = Some(net.clone());
+        let mut r = Rng::new(p.seed, "c10-env");
+        // a self-signed server certificate that chains to no platform root
+        let nb = real_now - 2 * DAY;
+        let (der, k) = make_cert(KeyKind::P256, nb, nb + 12 * DAY);
+        let cert = Certificate::from_der(der).map_err(|e| format!("{e:?}"))?;
+        let pem = cert.to_pem();
+        let identity = Identity::new(CertificateChain::single(cert), PrivateKey::from_der_pkcs8(k));
+        let saddr: SocketAddr = harness::SERVER_ADDR.parse().unwrap();
+        let caddr: SocketAddr = harness::CLIENT_ADDR.parse().unwrap();
+        let kn = EpKnobs::default();
+        let (sep, _ss) = harness::server_on(&net, harness::server_config(saddr, &kn, identity, r.seed32()), saddr);
+        // the environment of the process names that certificate as a trust anchor while the client
+        // configuration is built (serialised: the environment is process-wide)
+        let dir = std::env::temp_dir().join(format!("wtsim-c10-{}-{:x}", std::process::id(), p.seed));
+        let (mut ccfg, env_after) = {
+            let _g = NATIVE_LOCK.lock().unwrap();
+            std::fs::create_dir_all(&dir).map_err(|e| format!("{e:?}"))?;
+            let file = dir.join("impostor.pem");
+            std::fs::write(&file, pem.as_bytes()).map_err(|e| format!("{e:?}"))?;
+            let (name, value) = if p.var == 0 { ("SSL_CERT_FILE", file.clone()) } else { ("SSL_CERT_DIR", dir.clone()) };
+            let before = std::env::var_os(name);
+            std::env::set_var(name, &value);
+            let cfg = ClientConfig::builder().with_bind_address(caddr).with_native_certs().build();
+            let after = std::env::var_os(name);
+            match before {
+                Some(b) => std::env::set_var(name, b),
+                None => std::env::remove_var(name),
+            }
+            let _ = std::fs::remove_dir_all(&dir);
+            (cfg, after == Some(value.into_os_string()))
+        };
+        ccfg.quic_endpoint_config_mut().rng_seed(Some(r.seed32()));
+        let (cep, _cs) = harness::client_on(&net, ccfg, caddr);
+        let offered = Arc::new(Mutex::new(0u32));
+        let o2 = offered.clone();
+        tokio::spawn(async move {
+            loop {
+                let inc = sep.accept().await;
+                let o3 = o2.clone();
+                tokio::spawn(async move {
+                    if let Ok(req) = inc.await {
+                        *o3.lock().unwrap() += 1;
+                        if let Ok(c) = req.accept().await {
+                            c.closed().await;
+                        }
+                    }
+                });
+            }
+        });
+        let res = tokio::time::timeout(Duration::from_secs(60), cep.connect(format!("https://{}/c10-env", harness::SERVER_ADDR))).await;
+        let connected = matches!(res, Ok(Ok(_)));
+        tokio::time::sleep(Duration::from_secs(1)).await;
+        let off = *offered.lock().unwrap();
+        Ok::<_, String>((connected, off, env_after))
+    });
+    sut::finish_exec(&mut ex, &netslot, trace);
+    if !out.panics.is_empty() {
+        ex.violation("C10/panic", out.panics.join(" | "));
+        return ex;
+    }
+    match out.value {
+        None => ex.violation("C10/run-did-not-finish", "exceeded 120 s simulated".into()),
+        Some(Err(e)) => ex.violation("C10/setup", e),
+        Some(Ok((connected, offered, env_kept))) => {
+            ex.nontrivial = true;
+            let var = if p.var == 0 { "SSL_CERT_FILE" } else { "SSL_CERT_DIR" };
+            if connected || offered > 0 {
+                ex.violation(
+                    "C10/unacceptable-cert-accepted",
+                    format!("default trust policy (with_native_certs) built while {var} named the server's self-signed certificate: connect() {} and the server application was offered {offered} request(s); that certificate chains to no platform root", if connected { "succeeded" } else { "failed" }),
+                );
+            } else if !env_kept {
+                ex.violation("C10/environment-changed", format!("{var} was not left as the caller had set it after with_native_certs()"));
+            }
+            ex.probe("default_policy_refusals", 1);
+        }
+    }
+    ex
+}
+
+pub struct C10Env;
+
+impl TypedScenario for C10Env {
+    type Plan = EnvPlan;
+    fn name(&self) -> &'static str {
+        "policy-default-roots-environment"
+    }
+    fn budget(&self, tier: Tier) -> usize {
+        match tier {
+            Tier::Quick => 8,
+            Tier::Thorough => 200,
+        }
+    }
+    fn generate(&self, seed: u64, index: usize, _tier: Tier) -> EnvPlan {
+        let mut rng = Rng::new(seed, "c10-envplan");
+        EnvPlan { seed, rt: RtKnobs::from_rng(&mut rng), var: (index % 2) as u8 }
+    }
+    fn execute(&self, plan: &EnvPlan, trace: bool) -> Exec {
+        exec_env(plan, trace)
+    }
+}
+
 pub fn def() -> PropertyDef {
     PropertyDef {
         id: "C10",
-        scenarios: vec![Box::new(Typed(C10Clock)), Box::new(Typed(C10Handshake))],
-        rule: "clock-verifier: certificates generated with rcgen (keys P-256 / P-384 / Ed25519; validity windows 1 h, 13 d, 14 d - 1 s, 14 d, 14 d + 1 s, 15 d, 10 y and sampled 1 s..40 d) are presented to the real ServerHashVerification::verify_server_cert under a simulated wall clock reading not_before -1/0/+1 s, mid-window, not_after -1/0/+1 s and six seeded skews / jumps (seconds to 400 days, forwards and backwards), with hash sets {empty, exactly the leaf, another, many with, many without}; the first 105 runs are the full window x key x hash-set grid. e2e-policy-matrix: real client and server handshakes over the simulated network for 12 trust policies (five hash sets via with_server_certificate_hashes, native certs, no validation, and five hash sets in a custom TLS configuration whose rustls TimeProvider is a simulated clock) x 9 server identities (Identity::self_signed; P-256 valid / expired / not yet valid / 22 d / 10 y / exactly 14 d; P-384; Ed25519) exhaustively, then sampled handshakes on the simulated clock with the window ends approached to the second. Oracle: accept iff hash in set AND not_before <= now <= not_after AND validity <= 14 d AND key is ECDSA P-256; native-cert trust never accepts these self-signed leaves; no-validation always does; a refused handshake yields no Connection on the client and no session request on the server. Every run is non-trivial; distinct = distinct plan hashes.",
+        scenarios: vec![Box::new(Typed(C10Clock)), Box::new(Typed(C10Handshake)), Box::new(Typed(C10Env))],
+        rule: "clock-verifier: certificates generated with rcgen (keys P-256 / P-384 / Ed25519; validity windows 1 h, 13 d, 14 d - 1 s, 14 d, 14 d + 1 s, 15 d, 10 y and sampled 1 s..40 d) are presented to the real ServerHashVerification::verify_server_cert under a simulated wall clock reading not_before -1/0/+1 s, mid-window, not_after -1/0/+1 s and six seeded skews / jumps (seconds to 400 days, forwards and backwards), with hash sets {empty, exactly the leaf, another, many with, many without}; the first 105 runs are the full window x key x hash-set grid. e2e-policy-matrix: real client and server handshakes over the simulated network for 12 trust policies (five hash sets via with_server_certificate_hashes, native certs, no validation, and five hash sets in a custom TLS configuration whose rustls TimeProvider is a simulated clock) x 9 server identities (Identity::self_signed; P-256 valid / expired / not yet valid / 22 d / 10 y / exactly 14 d; P-384; Ed25519) exhaustively, then sampled handshakes on the simulated clock with the window ends approached to the second. Oracle: accept iff hash in set AND not_before <= now <= not_after AND validity <= 14 d AND key is ECDSA P-256; native-cert trust never accepts these self-signed leaves; no-validation always does; a refused handshake yields no Connection on the client and no session request on the server. Every run is non-trivial; distinct = distinct plan hashes. policy-default-roots-environment: while the client configuration is built with with_native_certs(), SSL_CERT_FILE or SSL_CERT_DIR of the process names the server's self-signed certificate (serialised under a process-wide lock); the handshake must still be refused - the default policy trusts platform roots only - and the variable is left as the caller set it.",
         assumptions: vec![
             "where the handshake reads the real clock (policies other than the simulated-clock one) every certificate window is at least two days away from the real time, so the verdict does not depend on when the check runs",
             "rcgen / ring generate the test certificates; x509-parser, rustls and ring are real but trusted",
